@@ -4,6 +4,7 @@ from . import rules_guard as RG
 from . import rules_atomic as RA
 from . import rules_slab as RS
 from . import rules_qs as RQ
+from . import rules_radix as RR
 
 
 def need_unit(ctx, name, **kw):
@@ -68,4 +69,22 @@ def C11(ctx):
             "callback. Not decided: the counting protocol over interleavings (deferred periods, joining agents), fairness.")
 
 
-PROPS = {"C11": C11, "C12": C12, "C05": C05, "C04": C04}
+def C10(ctx):
+    u = need_unit(ctx, "radix")
+    RR.check_C10(ctx, u)
+    return ("Publication-order half of C10: release on every store a reader can see, acquire on every load in find(), fresh "
+            "nodes completely initialised (header, all 16 link slots, value, old subtree linked) before the publishing store "
+            "and never written afterwards, value constructed before its mask bit, erase clears a bit and frees nothing, find "
+            "returns only under prefix match and set bit. Not decided: the happens-before argument over all interleavings.")
+
+
+def C09(ctx):
+    u = need_unit(ctx, "radix")
+    RR.check_C09(ctx, u)
+    return ("Structural clauses of C09: shift counts of pfx_of/idx_of within [0,64) on depth in [0,15]; every link/entry "
+            "subscript is idx_of(key, own depth) and mask bits use the same index; the three descents agree on prefix and "
+            "leaf tests; entry storage is never moved/freed outside the destructor and values are constructed only in fresh "
+            "leaves or under a clear bit. Not decided: exactness of the map over all key sets, ascending iteration order.")
+
+
+PROPS = {"C10": C10, "C09": C09, "C11": C11, "C12": C12, "C05": C05, "C04": C04}
